@@ -251,6 +251,52 @@ def type_name_grid(ck, tier, auto):
     ck.notes["type_name_grid"] = {"programs": len(progs), "names": len(names), "failing": len(bad)}
 
 
+# names the generated code mentions (by absolute path today): a USER item of that name, referred to from the user's own key / by / default
+# expressions, must keep meaning the user's item inside the generated method bodies (no `use` in generated code may capture it)
+USER_EXPR_NAMES = ["Ordering", "Option", "Some", "None", "Hash", "Hasher", "Eq", "PartialEq", "PartialOrd", "Ord", "Clone", "Default", "Debug", "Formatter",
+                   "Result", "Ok", "Err", "Into", "From", "Sized", "Fn", "Equal", "Less", "Greater", "Copy", "Deref", "DerefMut", "Add", "Neg", "fmt", "cmp",
+                   "hash", "core", "std", "ops", "marker", "clone", "default", "convert", "option"]
+
+
+def user_expr_name_grid(ck, tier):
+    progs = []
+    for nm in USER_EXPR_NAMES:
+        is_mod = nm[0].islower()
+        if is_mod:      # a user MODULE of that name holding the helper functions
+            decl = ("pub mod %s { pub fn k(v: &u8) -> u8 { *v / 2 } pub fn eq_by(a: &u8, b: &u8) -> bool { a == b } "
+                    "pub fn cmp_by(a: &u8, b: &u8) -> ::core::cmp::Ordering { ::core::cmp::Ord::cmp(a, b) } "
+                    "pub fn pcmp_by(a: &u8, b: &u8) -> ::core::option::Option<::core::cmp::Ordering> { ::core::cmp::PartialOrd::partial_cmp(a, b) } "
+                    "pub fn hash_by<S: ::core::hash::Hasher>(a: &u8, s: &mut S) { ::core::hash::Hash::hash(a, s) } pub fn dv() -> u8 { 7 } }" % nm)
+        else:           # a user TYPE of that name with associated functions
+            decl = ("pub struct %s; impl %s { pub fn k(v: &u8) -> u8 { *v / 2 } pub fn eq_by(a: &u8, b: &u8) -> bool { a == b } "
+                    "pub fn cmp_by(a: &u8, b: &u8) -> ::core::cmp::Ordering { ::core::cmp::Ord::cmp(a, b) } "
+                    "pub fn pcmp_by(a: &u8, b: &u8) -> ::core::option::Option<::core::cmp::Ordering> { ::core::cmp::PartialOrd::partial_cmp(a, b) } "
+                    "pub fn hash_by<S: ::core::hash::Hasher>(a: &u8, s: &mut S) { ::core::hash::Hash::hash(a, s) } pub fn dv() -> u8 { 7 } }" % (nm, nm))
+        fields = ("#[ord(key = N::k(&$))] pub a: u8, #[ord(by = N::cmp_by)] #[partial_ord(by = N::pcmp_by)] #[eq(by = N::eq_by)] #[hash(by = N::hash_by)] pub b: u8, "
+                  "#[default(N::dv())] pub c: u8, #[partial_eq(key = N::k(&$))] #[hash(key = N::k(&$))] #[ord(key = N::k(&$))] pub d: u8").replace("N::", nm + "::")
+        efields = fields.replace("pub ", "")
+        for entry in ("attr", "derive"):
+            head = rf.derive_head(["Ord", "PartialOrd", "Eq", "PartialEq", "Hash", "Default", "Debug", "Clone"], entry)
+            progs.append("#![allow(dead_code, non_camel_case_types, non_snake_case)]\npub mod m { %s\n%s pub struct T { %s }\n%s pub enum E { #[default] A { %s }, B }\n}\n"
+                         % (decl, head, fields, head, efields))
+    wd = os.path.join(dx.WORK, "c13ue-%d" % os.getpid())
+
+    def comp(ix):
+        i, src = ix
+        ok, diags = dx.check_only("u%d" % i, src, wd)
+        return ok, dx.diag_summary(diags)[:3]
+    res = dx.pmap(comp, list(enumerate(progs)))
+    import shutil
+    shutil.rmtree(wd, ignore_errors=True)
+    events = [{"ev": "compiles", "rustc_ok": ok} for ok, _ in res]
+    n, bad, jst = dx.tlc_judge("Trace_Bounds", "Trace_Bounds.cfg", events, "c13ue")
+    ck.add_judge(n, jst)
+    for i in bad:
+        ck.violation({"family": "user_expr_name", "scheme": "prelude", "name": USER_EXPR_NAMES[i // 2], "codes": ",".join(sorted(set(d.get("code") or "?" for d in res[i][1])))},
+                     {"what": "a user item with this name, used inside key / by / default expressions, is captured by the generated code", "source": progs[i], "diagnostics": res[i][1]})
+    ck.notes["user_expr_name_grid"] = {"programs": len(progs), "failing": len(bad)}
+
+
 PRIMS = set("bool char str u8 u16 u32 u64 u128 usize i8 i16 i32 i64 i128 isize f32 f64 core std alloc crate".split())
 
 
@@ -301,6 +347,7 @@ def c13(tier):
     no_std_programs(ck, tier, rnd)
     const_param_grid(ck, tier)
     type_name_grid(ck, tier, auto)
+    user_expr_name_grid(ck, tier)
     ck.cov["evaluations"] = ck.cov["traces_validated_against_impl"]
     ck.cov["distinct_nontrivial"] = len(ck.notes.get("events_per_family", {}))
     ck.cov["rule"] = ("every run-time family (clone, struct operators, impl operators, debug, default, deref, comparison sample) re-run under 4 renaming schemes "
